@@ -8,6 +8,9 @@ See the included GPLv3 LICENSE file
 
 #include "Object3d.hpp"
 #include "half.hpp"
+#ifdef NIFLY_VERIF
+#include "VerifHooks.hpp"
+#endif
 
 #include <algorithm>
 #include <iostream>
@@ -289,6 +292,10 @@ public:
 
 	template<typename T>
 	void Sync(T& t) {
+#ifdef NIFLY_VERIF
+		if (verif::observer && verif::observer->Field(*this, verif::KindOf<T>(), &t, sizeof(T)))
+			return;
+#endif
 		Sync(reinterpret_cast<char*>(&t), sizeof(T));
 	}
 
@@ -342,6 +349,10 @@ public:
 	}
 
 	void SyncHalf(float& fl) {
+#ifdef NIFLY_VERIF
+		if (verif::observer && verif::observer->Field(*this, verif::FK_HALF, &fl, 2))
+			return;
+#endif
 		half_float::half halfData;
 
 		if (mode == Mode::Writing)
@@ -526,6 +537,25 @@ public:
 class NiRef {
 public:
 	uint32_t index = NIF_NPOS;
+#ifdef NIFLY_VERIF
+	NiRef() {
+		if (verif::observer)
+			verif::observer->RefBorn(this);
+	}
+	NiRef(const NiRef& o)
+		: index(o.index) {
+		if (verif::observer)
+			verif::observer->RefBorn(this);
+	}
+	NiRef& operator=(const NiRef& o) {
+		index = o.index;
+		return *this;
+	}
+	~NiRef() {
+		if (verif::observer)
+			verif::observer->RefDied(this);
+	}
+#endif
 
 	void Clear() { index = NIF_NPOS; }
 	bool IsEmpty() const { return index == NIF_NPOS; }
@@ -604,6 +634,10 @@ public:
 
 		sz = Base::size();
 
+#ifdef NIFLY_VERIF
+		if (verif::observer && verif::observer->Field(stream, verif::FK_COUNT, &sz, NumSize))
+			return sz;
+#endif
 		stream.Sync(reinterpret_cast<char*>(&sz), NumSize);
 		return sz;
 	}
@@ -652,6 +686,10 @@ public:
 
 		sz = Base::size();
 
+#ifdef NIFLY_VERIF
+		if (verif::observer && verif::observer->Field(stream, verif::FK_COUNT, &sz, NumSize))
+			return sz;
+#endif
 		stream.Sync(reinterpret_cast<char*>(&sz), NumSize);
 		return sz;
 	}
@@ -957,6 +995,10 @@ public:
 	bool HasType() const {
 		return dynamic_cast<const T*>(this) != nullptr;
 	}
+
+#ifdef NIFLY_VERIF
+	verif::Uid verifUid;
+#endif
 
 private:
 	virtual NiObject* Clone_impl() const = 0;
